@@ -53,11 +53,21 @@ def persist_like(ctx):
             if not any(c["q"] in P for c in T.calls()):
                 continue
             edges = Q.success_edges(ctx, f, lambda b: Q.is_await_of(b, P))
-            if not edges:
-                continue
             cfg = ctx.cfg(f, with_cancel=False)
             rets = Q.return_blocks_maybe_ok(ctx, f)
-            if rets and all(cfg.must_pass(bb, edges) for bb, _ in rets):
+
+            def propagates(bb, how):
+                """the value returned here IS the persist call's result (possibly through wrap/context/map_err): Ok iff it was Ok"""
+                if how != "call":
+                    return False
+                for pb, b in enumerate(f.blocks):
+                    t = b["t"]
+                    if t["k"] == "call" and t.get("t") == bb and not t["dest"].get("pr") and t["dest"]["l"] in Q.ret_locals(f):
+                        ct = strip(T.call_term(t), RESULT_ADAPTERS)
+                        if Q.is_await_of(ct, P):
+                            return True
+                return False
+            if rets and all((bool(edges) and cfg.must_pass(bb, edges)) or propagates(bb, how) for bb, how in rets):
                 P.add(rq)
                 changed = True
     ctx._persist_like = P
@@ -286,8 +296,10 @@ def rule_backup_restore_agree(ctx):
     for name, t in sm_agg[3]:
         if name in expect:
             base, path = field_path(t)
-            if base[0] == "var":
-                src_locals.add(base[1])
+            # the persisted-state value the field is read from: a local, possibly behind `?` / Ok(..) of an inlined loader
+            for x in subterms(base):
+                if x[0] == "var" and "ChonkyV2State" in body.locals[x[1]].s:
+                    src_locals.add(x[1])
     ctx.ob(R, "restore source", len(src_locals) == 1, "all restored fields come from one ChonkyV2State local (%s)" % sorted(src_locals), body.loc())
     for bi, b in enumerate(body.blocks):
         defs = []
@@ -298,6 +310,10 @@ def rule_backup_restore_agree(ctx):
         if t["k"] == "call" and not t["dest"].get("pr") and t["dest"]["l"] in src_locals:
             defs.append(T.call_term(t))
         for d in defs:
+            if d[0] == "call" and d[1] == "std::ops::FromResidual::from_residual":
+                continue    # error propagation (`?`), not a state value
+            if d[0] == "agg" and d[2] == "Err":
+                continue
             subs = list(subterms(d))
             if any(x[0] == "call" and x[1].endswith("EngineManager::get_state") for x in subs):
                 adopt.add(bi)
